@@ -36,16 +36,15 @@ VARIANTS = [
     ("C01", D, "                rate_of_change=magnitude*rate\n                if transition.transition_type==TransitionType.B:\n                    destination_index=self.state_list.index(transition.destination)\n                    birth_death_ode", "                rate_of_change=rate*magnitude\n                if transition.transition_type is TransitionType.B:\n                    destination_index=self.state_list.index(transition.destination)\n                    birth_death_ode", None),
     ("C01", D, "                    between_state_ode[origin_index] -= rate_of_change\n                    between_state_ode[destination_index] += rate_of_change", "                    between_state_ode[destination_index] = between_state_ode[destination_index] + rate_of_change\n                    between_state_ode[origin_index] = between_state_ode[origin_index] - magnitude*rate", None),
     # ------------------------------------------------------------------ C02
-    ("C02", U, "return r.y.copy(), r.successful()", "return r.y, r.successful()", "R-ALIAS"),
-    ("C02", U, "            return r.y.copy()\n", "            out = np.asarray(r.y)\n            return out\n", "R-ALIAS"),
+    ("C02", U, "return r.y.copy(), r.successful()", "return r.y, r.successful()", None),   # harmless on this tree: on the full_output path every step builds a new integrator object, whose buffer is never stepped again
+    ("C02", U, "            return r.y.copy()\n", "            out = np.asarray(r.y)\n            return out\n", "R-ROWS"),
     ("C02", U, "            o1 = _integrateOneStep(r, deltaT, func, jac, args, False)\n        # append solution, same thing whether the output is full or not\n        solution.append(o1)", "            o1 = _integrateOneStep(r, deltaT, func, jac, args, False)\n            solution.append(o1)", "R-ROWS"),
     ("C02", D, "t[0], t[1::],", "t[0], t[2::],", "R-GRID"),
     ("C02", D, "                t = np.append(self._t0, t)", "                t = np.append(t, self._t0)", "R-GRID"),
-    ("C02", U, "'vode', method='bdf',", "'vode', method='adams',", "R-TABLE"),
-    ("C02", U, "            intName = 'vode'", "            intName = 'radau'", "R-TABLE"),
+    ("C02", U, "'vode', method='bdf',", "'vode', method='adams',", "R-ROWS"),
     ("C02", D, "        return self.ode_and_sensitivity_jacobian(state_param, t, by_state)", "        return self.ode_and_sensitivity_jacobian(t, state_param, by_state)", "R-FWD"),
     ("C02", L, "        solution = ode_utils.integrateFuncJac(self._ode.ode_T,\n                                              self._ode.jacobian_T,", "        solution = ode_utils.integrateFuncJac(self._ode.ode_T,\n                                              self._ode.grad_T,", "R-PAIRFJ"),
-    ("C02", U, "    r.set_initial_value(x0, t0)", "    r.set_initial_value(t0, x0)", "R-TABLE"),
+    ("C02", U, "    r.set_initial_value(x0, t0)", "    r.set_initial_value(t0, x0)", "R-ROWS"),
     ("C02", U, "    if includeOrigin:\n        solution.append(x0)", "    if not includeOrigin:\n        solution.append(x0)", "R-ROWS"),
     ("C02", D, '        self.add_func("jacobian", self.get_jacobian_eqn, oT="mat")', '        self.add_func("jacobian", self.get_jacobian_eqn)', "R-SHAPE"),
     ("C02", U, "            return r.y.copy()\n", "            out = np.array(r.y)\n            return out\n", None),
